@@ -486,6 +486,12 @@ func runMutantChild(file, repo, verif string) int {
 		if o.Verdict == an.Discharged || o.Known != "" {
 			continue
 		}
+		if os.Getenv("VERIF_MUTVERBOSE") != "" {
+			fmt.Fprintf(os.Stderr, "[%s] %s at %s\n  %s\n", o.Verdict, o.Key, o.Pos, o.Msg)
+			for _, l := range o.Path {
+				fmt.Fprintln(os.Stderr, "    ", l)
+			}
+		}
 		if m.Rule == "" || strings.HasPrefix(o.Rule, m.Rule) {
 			by = append(by, o.Key)
 		} else {
